@@ -143,7 +143,7 @@ def roto_ty(ty):
             return "List[%s]" % roto_ty(ty[1])
         if ty[0] == "named":
             return ty[1]
-    return {"str": "String", "unit": "()"}.get(ty, ty)
+    return {"str": "String", "unit": "()", "Tr": "Tr"}.get(ty, ty)
 
 
 def esc_str(cps):
